@@ -194,6 +194,9 @@ func run(c Sx) Result {
 	syncPoint(nm.index(), nm.data(t.HeadId()))
 	metaSynced()
 
+	// items stored with zero length while the head file was already over maxFileSize: their index
+	// entry is (file+1, offset 0), which checkIndexItems rule 3 rejects (known finding)
+	zeroOff := map[uint64]bool{}
 	appended := map[uint64][]byte{} // what was last appended at each item number
 	syncedHead := uint64(0)         // items covered by the last completed Sync and not truncated since
 	var codes []Sx
@@ -205,16 +208,27 @@ func run(c Sx) Result {
 		case 0: // append batch
 			b := t.NewBatch()
 			cur := t.Items()
+			pending := int64(0)
 			for _, bl := range ol[1:] {
 				blob := AsBytes(bl)
 				h0 := t.HeadId()
+				stored := int64(len(blob))
+				if isSnappy {
+					stored = int64(len(snappy.Encode(nil, blob)))
+				}
+				delete(zeroOff, cur)
+				if stored == 0 && t.HeadBytes()+pending > int64(maxsz) {
+					zeroOff[cur] = true
+				}
 				if err := b.AppendRaw(cur, blob); err != nil {
 					opErr = err
 					break
 				}
 				appended[cur] = blob
 				cur++
+				pending += stored
 				if t.HeadId() != h0 {
+					pending = stored
 					// appendItem committed the pending buffers and advanceHead ran doSync:
 					// everything written so far is what was fsync'ed
 					rollovers++
@@ -423,7 +437,25 @@ func run(c Sx) Result {
 				addFail(fmt.Sprintf("tail %d above head %d after reopen", hidden2, items2))
 			}
 			if hiddenPre < syncedHead && (items2 < syncedHead || hidden2 > hiddenPre) {
-				addFail(fmt.Sprintf("synced items [%d,%d) not all present after reopen: range [%d,%d)", hiddenPre, syncedHead, hidden2, items2))
+				// the known finding, verified: the first lost item was stored with zero length while the head
+				// file was over maxFileSize, and its index entry is (previous file + 1, offset 0)
+				isKnown := false
+				if hidden2 <= hiddenPre && items2 < syncedHead && zeroOff[items2] && items2 >= offsetPre {
+					k := int(items2-offsetPre) * 6
+					if k+12 <= len(idxBytes) {
+						pf := uint32(idxBytes[k])<<8 | uint32(idxBytes[k+1])
+						ef := uint32(idxBytes[k+6])<<8 | uint32(idxBytes[k+7])
+						eo := uint32(idxBytes[k+8])<<24 | uint32(idxBytes[k+9])<<16 | uint32(idxBytes[k+10])<<8 | uint32(idxBytes[k+11])
+						isKnown = eo == 0 && ef == pf+1 && k > 0
+					}
+				}
+				if isKnown {
+					if known == "" {
+						known = fmt.Sprintf("synced items lost oversized-item: items [%d,%d) were synced, reopen exposes [%d,%d); item %d is an empty item appended while headBytes > maxFileSize, its index entry (file+1, offset 0) is rejected by checkIndexItems", hiddenPre, syncedHead, hidden2, items2, items2)
+					}
+				} else {
+					addFail(fmt.Sprintf("synced items [%d,%d) not all present after reopen: range [%d,%d)", hiddenPre, syncedHead, hidden2, items2))
+				}
 			}
 			if items2 < itemsPre {
 				tag("items-lost")
@@ -608,6 +640,8 @@ func genCase(r *Rng, ncuts int, adversarial bool) Sx {
 }
 
 func gen(r *Rng, tier string, emit func(c Sx)) {
+	// hxlib's streams for seeds s and s+1 are shifts of one another; re-key on the first output
+	r = NewRng(r.U64())
 	nh, ncuts := 120, 48
 	if tier == "thorough" {
 		nh, ncuts = 1500, 90
